@@ -29,7 +29,9 @@ PROP = [  # (subject fragment, property)
  ("must convert native-order samples", "C13"), ("smaller offset must pad", "C13"), ("_GD_LzmaClose must reset", "C13"),
  ("test the write bit of the mode", "C13"), ("/FRAMEOFFSET 0 for an included", "C07"), ("after an SIE write the I/O pointer", "C03"),
  ("position is that of the write side", "C03"), ("empty root namespace", "C09"), ("_GD_UpdateAliases must re-resolve", "C09"),
- ("step back over a partly written", "C18"), ("failing out-of-place write must report", "C14"), ("close failures while replacing", "C14"),
+ ("step back over a partly written", "C18"),
+ ("imaginary-part shortcut", "C10"), ("must not index beyond the end of the CARRAY", "C05"), ("scalar field equal to zero", "C05"),
+ ("MPLEX look-back must restore", "C02"), ("invalidate the MPLEX start-value cache", "C02"), ("failing out-of-place write must report", "C14"), ("close failures while replacing", "C14"),
 ]
 out = subprocess.run(["git", "-C", os.environ.get("VERIF_REPO", "/repo"), "log", "--reverse", "--format=%h %s"], stdout=subprocess.PIPE).stdout.decode()
 fixed = []
